@@ -151,6 +151,12 @@ func Strip(v ssa.Value) ssa.Value {
 			v = x.X
 		case *ssa.ChangeInterface:
 			v = x.X
+		case *ssa.UnOp:
+			if c := Cell(x); c != ssa.Value(x) {
+				v = c
+			} else {
+				return v
+			}
 		default:
 			return v
 		}
@@ -190,6 +196,35 @@ func LoadedField(v ssa.Value) (*types.Var, ssa.Value) {
 	return nil, nil
 }
 
+// Cell resolves a load from a variable cell (local or heap-escaped variable, as created for
+// captured parameters) that has exactly one store to the stored value; other values are returned
+// unchanged.
+func Cell(v ssa.Value) ssa.Value {
+	for i := 0; i < 8; i++ {
+		u, ok := v.(*ssa.UnOp)
+		if !ok || u.Op != token.MUL {
+			return v
+		}
+		a, ok := u.X.(*ssa.Alloc)
+		if !ok {
+			return v
+		}
+		var val ssa.Value
+		n := 0
+		for _, ref := range *a.Referrers() {
+			if st, ok := ref.(*ssa.Store); ok && st.Addr == ssa.Value(a) {
+				n++
+				val = st.Val
+			}
+		}
+		if n != 1 {
+			return v
+		}
+		v = val
+	}
+	return v
+}
+
 // Root walks to the object an address or loaded value is derived from: through FieldAddr,
 // IndexAddr, loads, slices, conversions.
 func Root(v ssa.Value) ssa.Value {
@@ -205,7 +240,11 @@ func Root(v ssa.Value) ssa.Value {
 			v = x.X
 		case *ssa.UnOp:
 			if x.Op == token.MUL {
-				v = x.X
+				if c := Cell(x); c != ssa.Value(x) {
+					v = c
+				} else {
+					v = x.X
+				}
 			} else {
 				return v
 			}
